@@ -103,7 +103,7 @@ Proj(x) ==
 
 E0 == [op |-> "none", out |-> "ok", nopt |-> 0, argsame |-> TRUE,
        p |-> "none", bad |-> FALSE, fresh |-> "none", key |-> "none",
-       rxhi |-> "none",
+       rxhi |-> "none", binfail |-> FALSE, contnan |-> FALSE,
        val |-> "none", kwvals |-> <<>>, haspre |-> FALSE, streq |-> FALSE,
        orphan |-> FALSE, ret |-> "none", expect |-> "none", tree |-> FALSE,
        pseudo |-> FALSE,
@@ -287,6 +287,7 @@ Rate(r) ==
                          ELSE <<"rate", st.res, r>>,
                  !.expect = IF Pseudo(r) \/ ~fitted THEN "none"
                             ELSE <<"rate", st.res, r>>,
+                 !.contnan = ~fitted,
                  !.retnum = [m1 |-> Pseudo(r) \/ ~fitted, zero |-> FALSE,
                              inrange |-> ~(Pseudo(r) \/ ~fitted)],
                  !.tree = TRUE]
